@@ -92,7 +92,7 @@ func iterCheckPlain(w *World, model *plainModel, nkeys int) {
 		}
 		val, err := vc.ValueCopy(nil)
 		if err != nil {
-			w.Res.Violate(w.step, "read_error", readErrSig(w, "Iterator.ValueCopy", err), "ValueCopy(%q): %v", e.Key, err)
+			w.Res.Violate(w.step, "read_error", readErrSig(w, "Iterator.ValueCopy", err, []byte{byte(kv.CFDefault)}, e.Key), "ValueCopy(%q): %v", e.Key, err)
 			continue
 		}
 		if _, dup := seen[string(e.Key)]; !dup {
@@ -109,12 +109,11 @@ func iterCheckPlain(w *World, model *plainModel, nkeys int) {
 		if ok && bytes.Equal(got, exp.val) {
 			continue
 		}
-		sig := map[string]string{"api": "iterator_valuecopy", "vlog_gc_ran": "no"}
-		if GCRan(w) {
-			sig["vlog_gc_ran"] = "yes"
-		}
-		if ArtPrefixPair(w, []byte(keyNames[ki])) {
-			sig["art_prefix_pair"] = "yes"
+		// where the expected and the returned copy are stored (same facts as point reads)
+		_, sig := diagnose(w, kv.CFDefault, []byte(keyNames[ki]), exp, ok, got)
+		sig["api"] = "iterator_valuecopy"
+		if _, has := sig["vlog_gc_ran"]; !has {
+			sig["vlog_gc_ran"] = "no"
 		}
 		w.Res.Violate(w.step, "iterator_value_mismatch", sig, "iterator ValueCopy(%q) = %q (present=%v); model %q", keyNames[ki], trunc(got), ok, trunc(exp.val))
 	}
